@@ -109,7 +109,6 @@ NeutralSem(A, withLabile, labelMods) ==
         mcomp == IF labelMods THEN ApplyLabels(ms.comp, Labels(A)) ELSE ms.comp IN
     [ok |-> ms.ok, comp |-> CAdd(base, mcomp), delta |-> ms.delta, sugars |-> ms.sugars]
 
-SemMass(s, mono) == FAdd(CompMass(s.comp, mono), s.delta)
 
 (* precursor ion: neutral + carriers + isotope neutrons + loss *)
 PrecursorMass(A, z, adducts, iso, loss, mono, labelMods) ==
